@@ -572,6 +572,18 @@ def c01_c04(v, tier, pid):
             if not ok:
                 v.violation(f"{pid}/net/{kind}", f"{'single' if srv.single else 'multi'}-port: {kind} windowsize {w} with emulated loss/duplication at blocks {drop} did not yield a byte-identical file ({note})",
                             {"engine": "net", "kind": kind, "windowsize": w, "faults_at_blocks": drop, "single_port": srv.single})
+    if pid == "C04" and tier == "thorough":
+        # a long negotiated timeout: one lost ACK must still be repaired by a retransmission after T, in both port modes
+        def long_timeout(srv):
+            tr = N.download(srv.addr, "f.bin", [("timeout", 30), ("windowsize", 2)], drop_blocks={3}, family=srv.family, timeout=40.0)
+            return srv, tr
+        with concurrent.futures.ThreadPoolExecutor(max_workers=2) as ex:
+            for srv, tr in ex.map(long_timeout, servers):
+                evals += 1
+                want = open(os.path.join(srv.args[srv.args.index("-d") + 1], "f.bin"), "rb").read()
+                if not (tr.completed and bytes(tr.data) == want):
+                    v.violation("C04/net/long-timeout", f"{'single' if srv.single else 'multi'}-port: download with timeout 30 s and one lost DATA did not complete ({tr.note}, error {tr.error})",
+                                {"engine": "net", "timeout": 30, "single_port": srv.single, "note": tr.note})
     fallback = {}
     if pid == "C01":
         jobs = []
